@@ -1,6 +1,9 @@
 import Log4rsModel.Properties.C01
 import Log4rsModel.Properties.C02
 import Log4rsModel.Properties.C13
+import Log4rsModel.Properties.C03
+import Log4rsModel.Routing.LogRecord
+import Log4rsModel.Routing.FiltersCompose
 /-
 Composition theorems across areas (not properties of the list themselves; they show that the
 per-property theorems chain: the hypothesis `Valid` of the routing theorems is exactly what the
@@ -28,5 +31,108 @@ theorem Compose_lossy_build_installs (inp : BuilderInput) :
     (∃ r, install (buildLossy inp).config = .ok r) ∧ (Tree.build (buildLossy inp).config).isSome = true := by
   obtain ⟨r, hr, _⟩ := C13_install_no_panic _ (C13_lossy_valid inp)
   exact ⟨⟨r, hr⟩, C01_build_total _ (C13_lossy_valid inp)⟩
+
+/-- The two models of `appender_map[name]` agree: C13's `lookupLast`/`resolveRefs` (Routing/Builder.lean)
+and the tree's `lastIdx`/`resolve` (Routing/Tree.lean) compute the same index lists, so C13's
+"installs without a missing key" is the tree's `build` being defined. -/
+theorem Compose_resolution_models_agree (cfg : Config) :
+    (∀ refs, resolveRefs cfg.appenders refs = Tree.resolve cfg.appenders refs) ∧
+    ((resolveAll cfg).isSome = (Tree.build cfg).isSome) := by
+  have hl : ∀ (a : Name) (tbl : List Name) (base : Nat),
+      lookupLast a tbl base = (Tree.lastIdx tbl a).map (· + base) := by
+    intro a tbl
+    induction tbl with
+    | nil => intro base; rfl
+    | cons x xs ih =>
+      intro base
+      simp only [lookupLast, Tree.lastIdx, ih (base + 1)]
+      cases Tree.lastIdx xs a with
+      | some j => simp; omega
+      | none => by_cases hx : x = a <;> simp [hx]
+  have hr : ∀ (tbl refs : List Name), resolveRefs tbl refs = Tree.resolve tbl refs := by
+    intro tbl refs
+    induction refs with
+    | nil => rfl
+    | cons a as ih =>
+      simp only [resolveRefs, Tree.resolve, hl a tbl 0, ih]
+      cases Tree.lastIdx tbl a <;> cases Tree.resolve tbl as <;> simp
+  have hls : ∀ (tbl : List Name) (ls : List LoggerCfg),
+      (resolveLoggers tbl ls).isSome = (Tree.resolveLoggers tbl ls).isSome := by
+    intro tbl ls
+    induction ls with
+    | nil => rfl
+    | cons l ls ih =>
+      simp only [resolveLoggers, Tree.resolveLoggers, hr]
+      cases Tree.resolve tbl l.appenders with
+      | none => simp
+      | some is =>
+        cases h1 : resolveLoggers tbl ls <;> cases h2 : Tree.resolveLoggers tbl ls <;> simp_all
+  refine ⟨hr cfg.appenders, ?_⟩
+  have := hls cfg.appenders cfg.loggers
+  simp only [resolveAll, Tree.build, hr]
+  cases Tree.resolve cfg.appenders cfg.rootAppenders with
+  | none => simp
+  | some ra =>
+    cases h1 : resolveLoggers cfg.appenders cfg.loggers <;>
+      cases h2 : Tree.resolveLoggers cfg.appenders cfg.loggers <;> simp_all
+
+/-- `appenders[idx]` in `ConfiguredLogger::log` (lib.rs 280) is in bounds for every node `find` can
+return in the tree of a valid configuration, inherited attachments included, and the name the tree
+model reads there (`nameOf`, a `getD`) is a genuine table entry: the default of the totalised read is
+never used. -/
+theorem Compose_found_indices_in_table (cfg : Config) (hv : Valid cfg) :
+    ∃ tree, Tree.build cfg = some tree ∧
+      ∀ p, ∀ i ∈ (find tree p).apps,
+        i < cfg.appenders.length ∧ cfg.appenders[i]? = some (nameOf cfg.appenders i) := by
+  obtain ⟨tree, hb, hrange⟩ := build_found_in_range cfg hv
+  refine ⟨tree, hb, fun p i hi => ?_⟩
+  have hlt := hrange p i hi
+  exact ⟨hlt, by simp [nameOf, List.getD, List.getElem?_eq_getElem hlt]⟩
+
+/-- C13 ∘ C01 ∘ C03, the whole `Log::log`: for a valid configuration (what the builder returns),
+ANY target and any record, with runtime appenders whose filters are arbitrary functions of the
+record: the node `find` returns carries attachment indices `att` that (1) name exactly the
+attachments of the effective logger's chain (own ++ inherited, one entry per attachment, so an
+appender attached at two levels of an additive chain occurs twice), (2) are all in range of the
+appender table — the hypothesis of the C03 fan-out theorems is discharged, `appenders[idx]` cannot
+panic — and (3) the complete call sequence is the specified one for that node: each attachment
+decided by its own appender's chain alone, each returned error handed to the handler once. -/
+theorem Compose_log_record_eq_spec {ρ : Type} (cfg : Config) (hv : Valid cfg)
+    (table : List (AppenderG ρ)) (hlen : table.length = cfg.appenders.length) (hnp : NoPanic table)
+    (target : Name) (lvlOf : ρ → Nat) (r : ρ) :
+    ∃ att : List Nat,
+      att.map (nameOf cfg.appenders) = chain cfg (comps target).length (effective cfg target) ∧
+      (∀ j ∈ att, j < table.length) ∧
+      logRecord cfg table .configured target lvlOf r =
+        some (.returned (specTraceG table (specLevel cfg target) att lvlOf r)) := by
+  obtain ⟨tree, hb, hrange⟩ := build_found_in_range cfg hv
+  obtain ⟨tree', hb', _, hdata, _⟩ := build_spec cfg hv
+  have ht : tree' = tree := by rw [hb] at hb'; exact (Option.some.inj hb').symm
+  subst ht
+  have h := hdata (comps target)
+  rw [res_eq_spec cfg (comps target) (comps target).length (Nat.le_refl _)] at h
+  simp only [Prod.mk.injEq, fdata] at h
+  refine ⟨(find tree' (comps target)).apps, h.2, ?_, ?_⟩
+  · intro j hj; rw [hlen]; exact hrange _ j hj
+  · have hlv : (find tree' (comps target)).level = specLevel cfg target := by
+      rw [specLevel_eq]; exact h.1
+    have hr : ∀ j ∈ (find tree' (comps target)).apps, j < table.length := by
+      intro j hj; rw [hlen]; exact hrange _ j hj
+    have hid : viaHandler HandlerId.configured = id := by funext e; cases e <;> rfl
+    simp only [logRecord, snapshotOf, hb, Option.map_some, Shared.log, Shared.create, hid, hlv,
+      fanoutG_eq_spec table _ _ lvlOf r hnp hr, LogResult.map, List.map_id]
+
+/-- the same for whatever `build_lossy` returns, from any builder input (duplicates, malformed
+names, dangling references): nothing the builder hands out can make `Log::log` index out of range,
+and its fan-out is the specified one. -/
+theorem Compose_lossy_build_log_record {ρ : Type} (inp : BuilderInput)
+    (table : List (AppenderG ρ)) (hlen : table.length = (buildLossy inp).config.appenders.length)
+    (hnp : NoPanic table) (target : Name) (lvlOf : ρ → Nat) (r : ρ) :
+    ∃ att : List Nat,
+      (∀ j ∈ att, j < table.length) ∧
+      logRecord (buildLossy inp).config table .configured target lvlOf r =
+        some (.returned (specTraceG table (specLevel (buildLossy inp).config target) att lvlOf r)) := by
+  obtain ⟨att, _, h2, h3⟩ := Compose_log_record_eq_spec _ (C13_lossy_valid inp) table hlen hnp target lvlOf r
+  exact ⟨att, h2, h3⟩
 
 end Log4rs.Routing
